@@ -337,6 +337,23 @@ func checkActionTyping(r *Run, ga *GA, pfx string) {
 				params[info.Defs[nm]] = nm.Name
 			}
 		}
+		// locals that merely rename a label (the parameter bindings of an expanded helper: `rest := rest`)
+		for pass := 0; pass < 3; pass++ {
+			ast.Inspect(fd.Body, func(x ast.Node) bool {
+				if as, ok := x.(*ast.AssignStmt); ok && as.Tok == token.DEFINE && len(as.Lhs) == len(as.Rhs) {
+					for i := range as.Lhs {
+						l, okL := as.Lhs[i].(*ast.Ident)
+						rr, okR := ast.Unparen(as.Rhs[i]).(*ast.Ident)
+						if okL && okR {
+							if pn, isLabel := params[info.Uses[rr]]; isLabel && info.Defs[l] != nil {
+								params[info.Defs[l]] = pn
+							}
+						}
+					}
+				}
+				return true
+			})
+		}
 		// range variables over label.([]interface{})
 		elemOf := map[types.Object]string{}
 		commaOK := map[*ast.TypeAssertExpr]bool{}
